@@ -27,6 +27,21 @@ type world struct {
 	seq   int
 	fails []string
 	z     bool // permessage-deflate was negotiated: RSV1 is legal, the reference decoder inflates
+	// deliberate panics raised by the harness's own callbacks (harnessPanic); nbio's recover around
+	// a queued job logs each of them once, and exactly those log lines are not failures
+	panicsRaised int
+}
+
+// harnessPanic is the value the harness's callbacks panic with in the scenarios that explore a
+// panicking user callback. nbio.Conn.execute recovers a job's panic and logs
+// "conn execute failed: <value>\n<stack>".
+const harnessPanic = "c14-harness-deliberate-callback-panic"
+
+// raise panics like a failing user callback would.
+func (w *world) raise() {
+	w.panicsRaised++
+	w.tick()
+	panic(harnessPanic)
 }
 
 func (w *world) tick() int {
@@ -49,22 +64,28 @@ func (w *world) flush() {
 var lastCounters map[string]int
 var lastOutcome string
 
-func logErrors() string {
-	errs := vkit.Log.TakeErrors()
-	if len(errs) == 0 {
-		return ""
+// logErrors returns the first line of the first error nbio logged, not counting up to exempt
+// lines that are exactly the job queue's report of the harness's own deliberate panic.
+func logErrors(exempt int) (first string, exempted int) {
+	for _, e := range vkit.Log.TakeErrors() {
+		if i := strings.Index(e, "\n"); i > 0 {
+			e = e[:i]
+		}
+		if exempted < exempt && e == "conn execute failed: "+harnessPanic {
+			exempted++
+			continue
+		}
+		if first == "" {
+			first = e
+		}
 	}
-	e := errs[0]
-	if i := strings.Index(e, "\n"); i > 0 {
-		e = e[:i]
-	}
-	return e
+	return first, exempted
 }
 
 // logFailure turns an error line nbio logged (its recover() blocks report swallowed panics this
 // way) into a failure with a signature that names the place.
 func (w *world) logFailure() {
-	e := logErrors()
+	e, _ := logErrors(w.panicsRaised)
 	switch {
 	case e == "":
 	case strings.Contains(e, "execute ParserCloser failed") && strings.Contains(e, "interface is nil"):
